@@ -333,7 +333,7 @@ def nontrivial(line, impl): return impl != 'ERR' and not impl.startswith('ERR')
 LEVEL_TEXT = ('Lean 4 theorem hash_refines: for all ten algorithms, every byte string M and every bit length 0 < L <= 8|M| (or omitted) the one-shot call of '
               'Model.Md/Model.Sha (hand-written mirrors of crysp/md.py, crysp/sha.py over the Bits/Padding models; all constants, tables and bit-expression '
               'lambdas regenerated from the source on every run) returns the digest of the Lean formalisation of RFC 1320 / RFC 1321 / FIPS 180-4 on the first L '
-              'bits; plus digest_length, bitlen_too_large, final_update_refines (length fields of any size). The model is tied to the code by the translator '
+              'bits; plus digest_length, bitlen_too_large, streamed_bitlen_too_large (update(M,bitlen=L,padding) with L > 8|M| is refused from ANY object state and leaves it untouched), final_update_refines (length fields of any size). The model is tied to the code by the translator '
               'and a boundary-directed correspondence stream that also compares the real code with the executable specification and with hashlib.')
 LEVEL_NOTE = ('Trusted: Lean kernel; axioms ⊆ {propext, Classical.choice, Quot.sound}; lean/Spec/{Bytes,MerkleDamgard,Md4,Md5,Sha1,Sha2,Sha2Consts}.lean as renderings of '
               'the standards (K/IV tables recomputed by rule, SHA-512/t IVs by the FIPS 180-4 5.3.6 generation function in the kernel); extract.py/runcheck.py/props/C01.py; '
